@@ -84,6 +84,7 @@ func (c *Configuration) validate() (bool, error) {
 		}
 	}
 
+	listed := make(map[string]bool)
 	for index, serviceName := range c.ServiceNameList {
 		switch {
 		case serviceName == "nchf-convergedcharging":
@@ -94,6 +95,13 @@ func (c *Configuration) validate() (bool, error) {
 				serviceName + ", should be nchf-convergedcharging.")
 			return false, err
 		}
+		// the routes of a service can be registered only once
+		if listed[serviceName] {
+			err := errors.New("Invalid serviceNameList[" + strconv.Itoa(index) + "]: " +
+				serviceName + " is listed more than once.")
+			return false, err
+		}
+		listed[serviceName] = true
 	}
 
 	result, err := govalidator.ValidateStruct(c)
